@@ -1,22 +1,27 @@
 #!/bin/bash
-# tools/seeded_ingest.sh C03 [extra checks, comma separated]
-# copy the sub-agent's deliveries from /tmp/seed-<id>/seeded/<k>, confirm
-# them, run the property's check (quick, then thorough if quick misses).
+# tools/seeded_ingest.sh C03 [round] [extra checks, comma separated]
+# copy the sub-agent's deliveries from /tmp/seed<round>-<id>/seeded/<k>
+# (round 1: /tmp/seed-<id>, kept as <id>-1..3; round 2: /tmp/seed2-<id>, kept
+# as <id>-4..6), confirm them, run the property's check (quick, then
+# thorough if quick misses).
 set -u
 pid=$1
-extra=${2:-}
+round=${2:-1}
+extra=${3:-}
 cd /verif
+if [ "$round" = "1" ]; then srcdir=/tmp/seed-$pid; off=0; else srcdir=/tmp/seed$round-$pid; off=$(( (round-1)*3 )); fi
 for k in 1 2 3; do
-  src=/tmp/seed-$pid/seeded/$k
+  src=$srcdir/seeded/$k
   [ -d "$src" ] || continue
-  dst=seeded/$pid-$k
+  id=$pid-$((k+off))
+  dst=seeded/$id
   mkdir -p $dst
   cp $src/patch.diff $src/demo.py $src/meta.json $dst/ 2>/dev/null
   echo "== $dst"
-  if python3 tools/seeded.py verify $dst > /tmp/seedverify-$pid-$k.log 2>&1; then
+  if python3 tools/seeded.py verify $dst > /tmp/seedverify-$id.log 2>&1; then
     echo "confirmed"
   else
-    echo "NOT CONFIRMED"; cat /tmp/seedverify-$pid-$k.log | tail -15
+    echo "NOT CONFIRMED"; tail -15 /tmp/seedverify-$id.log
     continue
   fi
   checks=$pid${extra:+,$extra}
